@@ -113,13 +113,18 @@ func VPH_C14_opts() {
 		if err == nil && len(defs) == 1 {
 			vp.Cover("opts-accepted")
 			// every option of the tag is an option of the command
-			for _, f := range strings.Fields(o) {
-				k := f
+			fields := strings.Fields(o)
+			for _, f := range fields {
+				k, v := f, ""
 				if i := strings.Index(f, "="); i >= 0 {
-					k = f[:i]
+					k, v = f[:i], f[i+1:]
 				}
-				_, ok := defs[0].Opts[k]
+				got, ok := defs[0].Opts[k]
 				vp.Assert(ok, "denotes-the-options")
+				// the value is everything after the first '=' (with several fields a later one may share the key)
+				if ok && len(fields) == 1 {
+					vp.Assert(got == v, "denotes-the-option-values")
+				}
 			}
 		}
 	}
